@@ -236,3 +236,33 @@ claim('C19',
 
 NOT_CLAIMED['C18'] = ('partly built: Props/C18.lean proves that none of the per-key RSA checks, BatchGCD / CheckGCD / CheckGCDN1 raise (HLBE ArithmeticError unreachable), C11 proves EC Add/Double total, '
                       'C16 the bookkeeping; harness/corr/c18.py pushes degenerate well-formed batches through every real check. EC / ECDSA check-layer totality theorems pending')
+
+# ---- C08 (integer-lattice half; see NOT_CLAIMED until the ECDSA check layer is merged)
+DRAFT_CLAIMS = {}
+
+
+def draft_claim(pid, text, note, technique, design_ref):
+  DRAFT_CLAIMS[pid] = dict(text=text, note=note, technique=technique, design_ref=design_ref)
+
+draft_claim('C08',
+      'Integer-lattice half, Lean theorems (Props/C08.lean) over models of hidden_number_problem.py and cr50_u2f_weakness.py with the LLL answer universally quantified. '
+      'PRE: for every Bias (MSB, COMMON_PREFIX, COMMON_POSTFIX, GENERALIZED) and all lists a, b, every x, w, n: with k_i = a_i + b_i x - c_i n the planted vector '
+      '(n w + 1, x, k_i w ...) resp. (n w + 1, x, e_i w ...) for a common part s, resp. (m, m x, e_i w ...) for a secret multiplier m, is an explicitly given integer combination of the rows of the matrix GetLattice builds '
+      '(hnp_pre_msb/prefix/postfix/generalized), entries bounded by B w for nonce parts below B (hnp_pre_bound); the common-suffix case is reduced to the common-prefix one exactly as the code does by multiplying with w^-1 mod n (postfix_reduction); '
+      'same for HiddenNumberProblemWithPrecomputation (precomp_pre; precomp_entries: each entry is c_j k_i - d_j mod n) and for the Cr50 U2F sub-problem: for nonces sum c_j 0x01010101 2^(32j) the vector (c1, c2, -256, 0) is in the lattice (cr50_pre). '
+      'POST: for EVERY reduced basis whose rows cannot make gmpy.invert raise (automatic for prime n: rows_ok_prime) a row (u, u x, ...) with gcd(u, n) = 1 - in particular any multiple t*target with n not dividing t*T0, t = +-1 included - makes HiddenNumberProblem / '
+      '...WithPrecomputation / ...ForCurve return x mod n among the guesses (hnp_post, hnp_post_prime, precomp_post, forcurve_post), and a reduced row +-(c1, c2, ...) makes Cr50U2fGuesses return x mod n (cr50_post); every reported guess is v1 v0^-1 mod n of some row (hnp_guess_origin). '
+      'DECISION LOGIC: full table of _HiddenNumberProblemSubsets for every length and flag set (subsets_logic), sliding windows cover every signature (windows_cover), shipped CONSTANT_FACTORY metadata never raises and never truncates the constant slice '
+      '(shipped_meta_ok, subsets_total_shipped, shipped_enough_constants, regenerated from /repo), argument checks of HiddenNumberProblemForCurve (forcurve_errors). '
+      'TOTALITY: the sanity raise in Cr50U2fGuesses is unreachable for all integer inputs, every modulus and every LLL answer; its only exception is ZeroDivisionError for n = 0 or a non-invertible r, impossible for r in [1, n-1] with n prime '
+      '(cr50_sanity_unreachable, cr50_only_zero_division, cr50_total_prime); orders whose bit length is not a multiple of 32 give the empty set, which among shipped curves is exactly secp521r1 (cr50_not_implemented, cr50_curves). '
+      'Model tied to /repo by differential correspondence (~108k evaluations per quick run): GetLattice for every bias, sizes 0..40, all nine curve orders and toy moduli, given and default w; post-processing with recorded fpylll output and with adversarial bases substituted into the real code '
+      '(zero rows, multiples of n, +-t*target, wrong signs, huge entries, short and empty rows, non-units for composite n); planted-bias instances (16/32/64 biased bits, counts around 2*curve size/bits, >= 24 for GENERALIZED); Cr50 on every curve and toy orders; '
+      'the generator exhaustively for len 0..130 x 8 flag sets x every shipped metadata triple; HiddenNumberProblemForCurve on GMP-LCG emulated nonces (emulation self-checked against the shipped constants), TruncLcgRand nonces and the shipped test samples. '
+      'NOT claimed: that LLL returns the planted vector ("number of signatures x biased bits >= 2 x curve size => detected", "as many signatures as the shipped model declares"): hits/misses per family are reported as statistics only.',
+      'Trusted: Lean kernel, correspondence harness, fpylll as oracle (answers recorded at lll.reduce), the float expression int(n.bit_length()/len(a)*1.25) as an oracle value (equal to floor(5 bl/(4 len)) on bl<600, len<=130 on every run). '
+      'Pending for the full property: the ECDSA check layer (BiasedBaseCheck / CheckCr50U2f: grouping by issuer, window loop 24/48/120, _IssuerDLogs marking every signature of the issuer, isolation of other issuers).',
+      'Lean 4 proof (pre/post sandwich around the LLL oracle, decision tables, unreachability) + differential correspondence with recorded and adversarial oracle answers',
+      'DESIGN.md section 5 C08, section 7')
+
+NOT_CLAIMED['C08'] = ('integer-lattice half done; ECDSA check layer (group isolation, marking all signatures of the issuer) pending')
